@@ -52,6 +52,10 @@ PINS["linspace VJP contracts the sample axis"] = ("C01", ["regress/C01/linspace-
 PINS["eigh VJP keeps the eigenvector term"] = ("C07", ["regress/C07/eigh-zero-cotangent-guard.json"])
 PINS["list-form einsum VJP sums the broadcast axes"] = ("C01", ["regress/C01/einsum-list-trailing-ellipsis.json"])
 PINS["einsum VJP repeats a labelled axis"] = ("C05", ["regress/C05/einsum-size-one-label.json"])
+PINS["diff JVP gives the prepend/append constants"] = ("C02", ["regress/C02/diff-prepend-jvp.json"])
+PINS["sum JVP leaves the initial= constant"] = ("C02", ["regress/C02/sum-initial-jvp.json"])
+PINS["pad JVP keeps the keywords"] = ("C02", ["regress/C02/pad-mode-kwargs-jvp.json"])
+PINS["reshape/ravel rules treat lower-case order"] = ("C02", ["regress/C02/ravel-lowercase-order-jvp.json"])
 PINS["clip VJP reduces its cotangent"] = ("C01", ["regress/C01/clip-array-bounds-broadcast.json"])
 PINS["max/min/var/std JVPs accept an axis"] = ("C02", ["regress/C02/chooser-jvp-numpy-int-axis.json"])
 PINS["FFT VJPs recognise a repeated axis"] = ("C01", ["regress/C01/fftn-repeated-axes-mixed-sign.json"])
